@@ -471,3 +471,160 @@ def _hc_dup():
         return r + ', ' + r if r else r
 
     return not judge(t, body)[0] and _canary(AttributeCollection, 'json', twice, lambda: judge(t, body)[0])
+
+
+# ---------------------------------------------------------------------------------------------------------------------
+# STATIC: fragment typing of the JSON assembler methods (pyvc/fragtype.py + contracts/jsonfrag.py).  Not a sweep over
+# inputs: for every path of every listed method of the REAL class JSON, the returned template derives a JSON object in
+# the JSON grammar with its holes as nonterminals -- i.e. for ALL values of the holes, peer chosen ones included.
+JSON_PY = ('src', 'exabgp', 'reactor', 'api', 'response', 'json.py')
+
+
+@bounded('C13', 'json-fragment-typing')
+def json_fragment_typing(tier, seed, path=None):
+    from pyvc import fragtype as FT
+    from contracts import jsonfrag as JF
+
+    path = path or os.path.join(os.environ.get('PYVC_REPO', '/repo'), *JSON_PY)
+    tree, cls = FT.load(path, 'JSON')
+    fails, evals, undecided, assumptions = [], 0, [], set()
+    consts = FT.module_constants(tree)
+
+    def check(method, args, goal):
+        nonlocal evals
+        it = FT.Interp(cls, JF.SPEC, consts)
+        try:
+            results = it.run_method(method, args)
+        except FT.Failure as e:
+            evals += 1
+            fails.append({'what': f'JSON.{method}: {e}', 'input': {'method': method}})
+            return
+        except FT.Undecided as e:
+            undecided.append(f'JSON.{method}: {e}')
+            return
+        for choices, r in results:
+            evals += 1
+            try:
+                if r is None and goal == 'VALUE':
+                    raise FT.Failure('a path returns None')
+                t = r if isinstance(r, FT.Tmpl) else FT.Tmpl([it.as_text(r, 'result')])
+                _k, notes = FT.derive(t, goal)
+                assumptions.update(notes)
+            except FT.Failure as e:
+                fails.append({'what': f'JSON.{method} (path {list(choices)}): {e}', 'input': {'method': method, 'path': list(choices)}})
+        assumptions.update(it.assumptions)
+
+    for m in JF.METHODS:
+        check(m, JF.params(m), 'VALUE')
+    # the escaping primitive itself: for a fragment the module built (VALUE), a number, and anything else
+    for kind in ('VALUE', 'NUM', 'RAW'):
+        it = FT.Interp(cls, JF.SPEC, consts)
+        evals += 1
+        f = _check_string_primitive(FT, it, kind)
+        if f:
+            fails.append({'what': f'JSON._string ({kind} argument): {f}', 'input': {'method': '_string', 'argument': kind}})
+        assumptions.update(it.assumptions)
+    if evals < 20:
+        raise RuntimeError('fragment typing produced fewer than 20 obligations: the scan no longer sees the class')
+    return {'evaluations': evals, 'distinct_nontrivial': evals, 'bound': f'STATIC, all values: every path of JSON.{{{", ".join(JF.METHODS)}}} (with _header, _neighbor and the _operational_* helpers inlined) and of JSON._string derives a JSON object / value with its holes as grammar nonterminals; NOT covered: update() / _update() (string surgery in loops: bounded only) and the json() methods of the message classes (assumed). Undecided: {undecided}. Assumptions: {sorted(assumptions)}', 'rule': 'one obligation = one path of one method', 'samples': [{'method': 'notification'}], 'failures': fails}
+
+
+def _check_string_primitive(FT, it, kind):
+    """JSON._string(obj) must return a JSON value for a _RawJSON (VALUE), an int / bool (NUM) and any other object (RAW)"""
+    import ast as _ast
+
+    fn = it.methods['_string']
+    outs = []
+
+    def run(stmts, env):
+        for s in stmts:
+            if isinstance(s, _ast.If):
+                t = _ast.unparse(s.test)
+                if '_RawJSON' in t:
+                    cond = kind == 'VALUE'
+                elif 'bool' in t:
+                    if kind == 'NUM':
+                        for c in (True, False):
+                            if c:
+                                run(s.body, dict(env))
+                        continue
+                    cond = False
+                elif 'int' in t:
+                    cond = kind == 'NUM'
+                else:
+                    return f'unexpected test {t}'
+                if cond:
+                    r = run(s.body, env)
+                    if r is not None:
+                        return r
+                    return None if outs and outs[-1][0] == 'ret' else None
+            elif isinstance(s, _ast.Return):
+                outs.append(('ret', s.value))
+                return None
+            elif isinstance(s, _ast.Expr) and isinstance(s.value, _ast.Constant):
+                continue
+            else:
+                return f'statement {type(s).__name__} outside the subset'
+        return None
+
+    err = run(fn.body, {})
+    if err:
+        return err
+    if not outs:
+        return 'no return reached'
+    for _t, expr in outs:
+        text = _ast.unparse(expr)
+        if kind == 'VALUE' and text == 'str(obj)':
+            continue
+        if kind == 'NUM' and text in ('str(obj)', "'true' if obj else 'false'"):
+            continue
+        if isinstance(expr, _ast.Call) and _ast.unparse(expr.func) == 'json.dumps' and _ast.unparse(expr.args[0]) == 'str(obj)':
+            try:
+                it.spec['calls']['json.dumps'](it, expr, [None], {})
+            except FT.Failure as e:
+                return str(e)
+            continue
+        return f'returns {text}, which is not known to be a JSON value for this kind of argument'
+    return None
+
+
+@replayer('C13', 'json-fragment-typing')
+def _replay_frag(f):
+    r = json_fragment_typing('quick', 1)
+    return not any(x['input'] == f['input'] for x in r['failures'])
+
+
+def _edited_json_py(old, new):
+    """the fragment-typing check on a copy of json.py with one textual edit (a canary: the edit must be refused)"""
+    import tempfile
+
+    src = open(os.path.join(os.environ.get('PYVC_REPO', '/repo'), *JSON_PY)).read()
+    if src.count(old) != 1:
+        return None  # the text is no longer there: the canary does not apply
+    with tempfile.NamedTemporaryFile('w', suffix='.py', dir=os.environ.get('PYVC_TMP', '/tmp'), delete=False) as f:
+        f.write(src.replace(old, new))
+        name = f.name
+    try:
+        return bool(json_fragment_typing('quick', 1, path=name)['failures'])
+    finally:
+        os.unlink(name)
+
+
+@harness_canary('C13', 'static: down reason spliced between quotes instead of going through _string')
+def _hc_frag_reason():
+    return _edited_json_py("self._kv(\n                    {\n                        'state': 'down',", "f'\"reason\": \"{reason}\", ' + self._kv(\n                    {\n                        'state': 'down',")
+
+
+@harness_canary('C13', 'static: json.dumps without ASCII escaping')
+def _hc_frag_ascii():
+    return _edited_json_py('return json.dumps(str(obj))', 'return json.dumps(str(obj), ensure_ascii=False)')
+
+
+@harness_canary('C13', 'static: the same key twice in one object')
+def _hc_frag_dup():
+    return _edited_json_py("                'subcode': message.subcode,\n", "                'subcode': message.subcode,\n                'code': message.subcode,\n")
+
+
+@harness_canary('C13', 'static: separator kept when the content is empty')
+def _hc_frag_sep():
+    return _edited_json_py("sep2 = ', ' if content else ' '", "sep2 = ', '")
